@@ -157,6 +157,25 @@ func runAnyutil(cfg *Cfg) {
 			if _, isDyn := m2.(*dynamicpb.Message); !isDyn {
 				out.Violate("C16", "unpack-files-not-dynamic", "file-registry path did not produce a dynamic message", replay)
 			}
+			// re-pack what the file-registry path returned (a dynamic message: every *dynamicpb.Message has the
+			// same Go type whatever its descriptor): URL and value must still be those of this message type
+			{
+				re := &anypb.Any{}
+				var rerr error
+				if rp, rpm := guard(func() { rerr = anyutil.MarshalFrom(re, m2, proto.MarshalOptions{Deterministic: true}) }); rp || rerr != nil {
+					out.Violate("C16", "repack-dynamic", fmt.Sprintf("MarshalFrom of the unpacked dynamic message failed: %v %s", rerr, rpm), replay)
+				} else {
+					if re.TypeUrl != "/"+t.Full {
+						out.Violate("C16", "pack-url", "re-packed dynamic message: type URL "+re.TypeUrl+" want /"+t.Full, replay)
+					}
+					back := dynamicpb.NewMessage(t.Desc)
+					b1, _ := proto.MarshalOptions{Deterministic: true}.Marshal(m2)
+					// (bytes, not proto.Equal: NaN values are never Equal)
+					if proto.Unmarshal(re.Value, back) != nil || !bytes.Equal(re.Value, b1) {
+						out.Violate("C16", "pack-value", "re-packed dynamic message does not decode to the message", replay)
+					}
+				}
+			}
 			if fmt.Sprintf("%T", m1) != fmt.Sprintf("%T", msg) {
 				out.Violate("C16", "unpack-type", fmt.Sprintf("type registry path produced %T", m1), replay)
 			}
